@@ -146,6 +146,8 @@ class BackgroundThread(Thread):
             controller,
             self.on_paused,
             self.on_resumed,
+            self._thread_status.pause,
+            self._thread_status.resume,
         )
 
     @override
